@@ -5,23 +5,23 @@
     `inRange`, `valid : DT → Option Int → Val → Bool` (the total classification of (dtype, length, value)),
     `encode` (the bits a valid triple must produce), `effLen` (the length a plain property assignment uses),
     `windowSpec` (a window `offset, length` over `n` source bits: `0 ≤ off ∧ 0 ≤ len ∧ off + len ≤ n`).
-  ALG layer (the code, function by function; line numbers of /repo at a428504):
+  ALG layer (the code, function by function; line numbers of /repo at c59055f):
     bitstore_helpers.py  tidy_input_string (18), bin2bitstore (37), hex2bitstore (50), oct2bitstore (60),
                          ue/se/uie/sie2bitstore (70-106, from Model/C10), bfloat2bitstore (109),
                          p4binary2bitstore … mxint2bitstore (120-209: the LUT code crosses the wire, see `Val.code`),
-                         int2bitstore (212-228) on top of bitarray.util.int2ba, intle2bitstore (231-233),
-                         float2bitstore (236-245), bitstore_from_token (257-270)
-    bits.py              __new__ (114-126), _initialise keyword route (136-171), _setauto BytesIO branch (525-543),
-                         _setfile (554-577), _setbitarray (579-590), _setbits (592), _setbytes (624),
-                         _setbytes_with_truncation (628-641), _setuint … _setintle (659-736),
-                         _setfloat (783-788), _setbfloatbe/le (810-822), _setue/se/uie/sie (824-939),
-                         _setbool (958-966), _setbin_safe/_setoct/_sethex (977-999)
-    bitstore.py          BitStore.frombuffer (63-81), tobytes (86), getslice_msb0 (229-234)
+                         int2bitstore (212-232) on top of bitarray.util.int2ba, intle2bitstore (235-237),
+                         float2bitstore (240-249), bitstore_from_token (261-274)
+    bits.py              __new__ (114-126), _initialise keyword route (136-171), _setauto BytesIO branch (525-551),
+                         _setfile (560-585), _setbitarray (587-602), _setbits (604), _setbytes (636),
+                         _setbytes_with_truncation (640-659), _setuint … _setintle (677-762),
+                         _setfloat (809-814), _setbfloatbe/le (836-848), _setue/se/uie/sie (850-965),
+                         _setbool (984-992), _setbin_safe/_setoct/_sethex (1003-1025)
+    bitstore.py          BitStore.frombuffer (60-78), tobytes (83), getslice_msb0 (226-231)
     dtypes.py            Dtype.__new__ (58-67), Dtype._create (148-172), Dtype.build (174-183),
                          AllowedLengths.__contains__ / only_one_value (240-248), get_dtype (323-342)
     bitarray_.py         BitArray.__setattr__ (131-145), overwrite (364-382)
     methods.py           pack (61-79: the 'bits' special case, then bitstore_from_token)
-    array_.py            _create_element (171-176), __setitem__ integer key (237-244)
+    array_.py            _create_element (174-179), __setitem__ integer key (240-247)
     __init__.py          dtype_definitions (212-281)
   Modelled, not verified: bitarray's `int2ba` ("ValueError if length ≤ 0, OverflowError iff the value is outside
   the range, else the two's complement bits"), `hex2ba`/`base2ba`/`bitarray(str)` (one digit per 4/3/1 bits,
@@ -62,7 +62,8 @@ def shl1 (k : Int) : Int := (2 : Int) ^ k.toNat
 
 /-- `int2bitstore` (bitstore_helpers.py:212) over a primitive `ba` standing for `bitarray.util.int2ba`: the
     range diagnosis on top of `OverflowError`; an `OverflowError` that the diagnosis does not explain is
-    re-raised (`raise e`, line 227). -/
+    re-raised (`raise e`, line 231).  (`int(i)` of an infinite float is turned into a CreationError at line 215;
+    floats in an integer slot are outside this line protocol.) -/
 def int2bitsWith (ba : Int → Int → Bool → Except BaErr Bits) (i length : Int) (signed : Bool) : Except Err Bits :=
   match ba i length signed with
   | .ok x => .ok x
@@ -88,7 +89,7 @@ def padRight8 (g : Bits) : Bits := g ++ List.replicate (8 - g.length) false
 /-- `BitStore.frombytes(x.tobytes()[::-1])`: ⌈len/8⌉ byte groups (last one zero padded), order reversed. -/
 def bytesRev (b : Bits) : Bits := ((groups8 ((b.length + 7) / 8) b).map padRight8).reverse.flatten
 
-/-- `intle2bitstore` (bitstore_helpers.py:231). -/
+/-- `intle2bitstore` (bitstore_helpers.py:235). -/
 def intle2bits (i length : Int) (signed : Bool) : Except Err Bits :=
   match int2bits i length signed with
   | .error e => .error e
@@ -235,7 +236,7 @@ def fromBytes (d : List Nat) : Bits := d.flatMap (natToBits 8)
 
 /-! ## 5. The set functions (bits.py) -/
 
-/-- `if length is None and hasattr(self, 'len') and len(self) != 0: length = len(self)` (bits.py:662).
+/-- `if length is None and hasattr(self, 'len') and len(self) != 0: length = len(self)` (bits.py:680).
     `cur = none`: the object has no `_bitstore` yet (`hasattr` is False). -/
 def lenOrCur (len : Option Int) (cur : Option Nat) : Option Int :=
   match len, cur with
@@ -248,21 +249,23 @@ def asInt : Val → Except Err Int
   | .str _ => .error .value              -- int('abc')
   | _ => .error .type                    -- outside the generated domain
 
-/-- `_setuint/_setint/_setuintbe/_setintbe/_setuintle/_setintle` (bits.py:659-736). -/
-def setInt (signed le : Bool) (v : Val) (len : Option Int) (cur : Option Nat) : Except Err Bits :=
+/-- `_setuint/_setint/_setuintbe/_setintbe/_setuintle/_setintle` (bits.py:677-774); the byte-order setters
+    (`endian`) refuse a length that is not whole bytes (`if length % 8: raise CreationError`, Python floor `%`). -/
+def setInt (signed le endian : Bool) (v : Val) (len : Option Int) (cur : Option Nat) : Except Err Bits :=
   match lenOrCur len cur with
   | none => .error .value
   | some n =>
     if n = 0 then .error .value else
+    if endian ∧ n % 8 ≠ 0 then .error .value else
     match asInt v with
     | .error e => .error e
     | .ok i => if le then intle2bits i n signed else int2bits i n signed
 
-/-- `float2bitstore` (236) / `bfloat2bitstore` (109) after `float(f)`. -/
+/-- `float2bitstore` (240) / `bfloat2bitstore` (109) after `float(f)`. -/
 def floatBits (le : Bool) (n : Nat) (c : Nat) : Bits :=
   if le then bytesRev (natToBits n c) else natToBits n c
 
-/-- `_setfloat` (bits.py:783). -/
+/-- `_setfloat` (bits.py:809). -/
 def setFloat (le : Bool) (v : Val) (len : Option Int) (cur : Option Nat) : Except Err Bits :=
   match lenOrCur len cur with
   | none => .error .value
@@ -274,7 +277,7 @@ def setFloat (le : Bool) (v : Val) (len : Option Int) (cur : Option Nat) : Excep
       | _ => .error .type
     else .error .value
 
-/-- `_setbfloatbe/_setbfloatle` (bits.py:810-822): the two most significant bytes of the binary32 pattern. -/
+/-- `_setbfloatbe/_setbfloatle` (bits.py:836-848): the two most significant bytes of the binary32 pattern. -/
 def setBfloat (le : Bool) (v : Val) (len : Option Int) : Except Err Bits :=
   match len with
   | some n => if n ≠ 16 then .error .value else body
@@ -285,7 +288,7 @@ where body : Except Err Bits :=
   | .str _ => .error .value
   | _ => .error .type
 
-/-- `_setbool` (bits.py:958): `value in (1, 'True', '1')` / `(0, 'False', '0')`, else CreationError. -/
+/-- `_setbool` (bits.py:984): `value in (1, 'True', '1')` / `(0, 'False', '0')`, else CreationError. -/
 def setBool (v : Val) : Except Err Bits :=
   match v with
   | .int i => if i = 1 then .ok [true] else if i = 0 then .ok [false] else .error .value
@@ -316,12 +319,12 @@ def setFx (w : Nat) (v : Val) : Except Err Bits :=
     uniformity (`_sethex(self, hexstring, length=None)` …). -/
 def setFn (d : DT) (v : Val) (len : Option Int) (cur : Option Nat) : Except Err Bits :=
   match d with
-  | .uint => setInt false false v len cur
-  | .int => setInt true false v len cur
-  | .uintbe => setInt false false v len cur
-  | .intbe => setInt true false v len cur
-  | .uintle => setInt false true v len cur
-  | .intle => setInt true true v len cur
+  | .uint => setInt false false false v len cur
+  | .int => setInt true false false v len cur
+  | .uintbe => setInt false false true v len cur
+  | .intbe => setInt true false true v len cur
+  | .uintle => setInt false true true v len cur
+  | .intle => setInt true true true v len cur
   | .hex => match v with | .str s => digits2bits .hex s | _ => .error .type
   | .oct => match v with | .str s => digits2bits .oct s | _ => .error .type
   | .bin => match v with | .str s => digits2bits .bin s | _ => .error .type
@@ -356,7 +359,7 @@ def build (d : DT) (len : Option Int) (v : Val) : Except Err Bits :=
       | some n => if (b.length : Int) ≠ n then .error .value else .ok b
       | none => .ok b
 
-/-- `bitstore_from_token(name, len, value)` (bitstore_helpers.py:257): token strings and `pack`. -/
+/-- `bitstore_from_token(name, len, value)` (bitstore_helpers.py:261): token strings and `pack`. -/
 def fromToken (d : DT) (len : Option Int) (v : Val) : Except Err Bits :=
   match getDtype d len with
   | .error e => .error e                          -- "Can't parse token"
@@ -384,24 +387,35 @@ def pySlice {α} (l : List α) (a b : Option Int) : List α :=
   let r := Py.sliceIndices a b 1 l.length
   (l.drop r.1.toNat).take (r.2.1 - r.1).toNat
 
-/-- `_setbytes_with_truncation` (bits.py:628). -/
+/-- `length is not None and length < 0`. -/
+def negLen : Option Int → Bool
+  | some l => decide (l < 0)
+  | none => false
+
+/-- `_setbytes_with_truncation` (bits.py:640) once `offset` is defaulted (at least one of the two was given). -/
+def bytesGeneral (data : List Nat) (offset : Int) (len : Option Int) : Except Err Bits :=
+  let n : Int := data.length * 8
+  if offset < 0 then .error .value else
+  if negLen len then .error .value else
+  if offset > n then .error .value else
+  match len with
+  | none =>
+    let length := n - offset
+    .ok (pySlice (fromBytes data) (some offset) (some (offset + length)))
+  | some length =>
+    if length + offset > n then .error .value
+    else .ok (pySlice (fromBytes data) (some offset) (some (offset + length)))
+
 def bytesWin (data : List Nat) (off len : Option Int) : Except Err Bits :=
   match off, len with
-  | none, none => .ok (fromBytes data)
-  | _, _ =>
-    let n : Int := data.length * 8
-    let offset := off.getD 0
-    match len with
-    | none =>
-      let length := n - offset
-      .ok (pySlice (fromBytes data) (some offset) (some (offset + length)))
-    | some length =>
-      if length + offset > n then .error .value
-      else .ok (pySlice (fromBytes data) (some offset) (some (offset + length)))
+  | none, none => .ok (fromBytes data)               -- self._setbytes(data)
+  | _, _ => bytesGeneral data (off.getD 0) len
 
-/-- `_setbitarray` (bits.py:579). -/
+/-- `_setbitarray` (bits.py:587). -/
 def bitarrayWin (ba : Bits) (off len : Option Int) : Except Err Bits :=
   let offset := off.getD 0
+  if offset < 0 then .error .value else
+  if negLen len then .error .value else
   if offset > ba.length then .error .value else
   match len with
   | none => .ok (pySlice ba (some offset) none)
@@ -409,27 +423,32 @@ def bitarrayWin (ba : Bits) (off len : Option Int) : Except Err Bits :=
     if offset + length > ba.length then .error .value
     else .ok (pySlice ba (some offset) (some (offset + length)))
 
-/-- The `io.BytesIO` branch of `_setauto` (bits.py:529-543). -/
+/-- The `io.BytesIO` branch of `_setauto` (bits.py:529-551) once `offset` is defaulted. -/
+def bytesioGeneral (data : List Nat) (offset0 : Int) (len : Option Int) : Except Err Bits :=
+  let n : Int := data.length * 8                     -- s.seek(0, 2) * 8
+  if offset0 < 0 then .error .value else
+  if negLen len then .error .value else
+  if offset0 > n then .error .value else
+  let length := match len with | none => n - offset0 | some l => l
+  let byteoffset := offset0 / 8                      -- divmod(offset, 8): floor division, divisor 8 > 0
+  let offset := offset0 % 8
+  let bytelength := (length + byteoffset * 8 + offset + 7) / 8 - byteoffset
+  if length + byteoffset * 8 + offset > n then .error .value
+  else
+    let chunk := pySlice data (some byteoffset) (some (byteoffset + bytelength))
+    .ok (pySlice (fromBytes chunk) (some offset) (some (offset + length)))
+
 def bytesioWin (data : List Nat) (off len : Option Int) : Except Err Bits :=
   match off, len with
-  | none, none => .ok (fromBytes data)
-  | _, _ =>
-    let n : Int := data.length * 8                     -- s.seek(0, 2) * 8
-    let offset0 := off.getD 0
-    let length := match len with | none => n - offset0 | some l => l
-    let byteoffset := offset0 / 8                      -- divmod(offset, 8): floor division, divisor 8 > 0
-    let offset := offset0 % 8
-    let bytelength := (length + byteoffset * 8 + offset + 7) / 8 - byteoffset
-    if length + byteoffset * 8 + offset > n then .error .value
-    else
-      let chunk := pySlice data (some byteoffset) (some (byteoffset + bytelength))
-      .ok (pySlice (fromBytes chunk) (some offset) (some (offset + length)))
+  | none, none => .ok (fromBytes data)               -- _setauto_no_length_or_offset
+  | _, _ => bytesioGeneral data (off.getD 0) len
 
-/-- `_setfile` (bits.py:554) with `BitStore.frombuffer` (bitstore.py:63); a file handle takes the same path
-    (`_setauto`, bits.py:543: `self._setfile(s.name, length, offset)`). -/
+/-- `_setfile` (bits.py:560) with `BitStore.frombuffer` (bitstore.py:60); a file handle takes the same path
+    (`_setauto`, bits.py:553: `self._setfile(s.name, length, offset)`). -/
 def fileWin (data : List Nat) (off len : Option Int) : Except Err Bits :=
-  let all := fromBytes data                              -- an empty file is read as b'' (bits.py:557)
+  let all := fromBytes data                              -- an empty file is read as b''
   let offset := off.getD 0
+  if offset < 0 then .error .value else
   if offset = 0 then
     match len with
     | none => .ok all
@@ -438,10 +457,9 @@ def fileWin (data : List Nat) (off len : Option Int) : Except Err Bits :=
       else if l > all.length then .error .value
       else .ok (all.take l.toNat)
   else
+    if offset > all.length then .error .value else
     match len with
-    | none =>
-      if offset > all.length then .error .value
-      else .ok (pySlice all (some offset) none)
+    | none => .ok (pySlice all (some offset) none)
     | some l =>
       let r := pySlice all (some offset) (some (offset + l))
       if (r.length : Int) ≠ l then .error .value else .ok r
@@ -452,7 +470,7 @@ def checkLen (d : DT) (dl : Option Int) (b : Bits) : Except Err Bits :=
   | some n => if (b.length : Int) ≠ n then .error .value else .ok b
   | none => .ok b
 
-/-- `Cls(name=v, length=len, offset=off)` (bits.py:147-171).  `bytes=` is the window route; every other
+/-- `Cls(name=v, length=len, offset=off)` (bits.py:146-171).  `bytes=` is the window route; every other
     keyword refuses `offset`; the resulting length is compared with the dtype's. -/
 def kwRoute (d : DT) (v : Val) (len off : Option Int) : Except Err Bits :=
   match d, v with
@@ -478,7 +496,8 @@ def kwnRoute (d : DT) (n : Int) (v : Val) : Except Err Bits :=
     | .ok b => checkLen d dl b
 
 /-- `a.<name> = v` through the class property (fset = the definition's raw set function): no `length`
-    argument, the object's current length is used by the int and float setters. -/
+    argument, the object's current length is used by the int and float setters (and must be whole bytes for
+    the byte-order ones). -/
 def propSet (d : DT) (cur : Bits) (v : Val) : Except Err Bits :=
   setFn d v none (some cur.length)
 
@@ -504,22 +523,24 @@ def assign (d : DT) (len : Option Int) (cur : Bits) (v : Val) : Outcome :=
   | .ok b => ⟨b, none⟩
   | .error e => ⟨cur, some e⟩
 
-/-- `Array._create_element` (array_.py:171): `dtype.build(value)` then `len(b) != dtype.length`. -/
+/-- `Array._create_element` (array_.py:174): `dtype.build(value)` then `len(b) != dtype.bitlength`. -/
 def createElement (d : DT) (n : Int) (v : Val) : Except Err Bits :=
   match build d (some n) v with
   | .error e => .error e
-  | .ok b => if (b.length : Int) ≠ n then .error .value else .ok b
+  | .ok b => if (b.length : Int) ≠ n * (defOf d).mult then .error .value else .ok b
 
-/-- `Array(f'{name}{n}', …)[key] = v` (array_.py:237-244); `n ≥ 1`, `data` = the array's bits. -/
+/-- `Array(f'{name}{n}', …)[key] = v` (array_.py:240-247); `n ≥ 1`, `data` = the array's bits,
+    `w = dtype.bitlength` the size of an item. -/
 def arrSet (d : DT) (n : Nat) (data : Bits) (key : Int) (v : Val) : Outcome :=
-  let count : Int := data.length / n
+  let w : Nat := n * (defOf d).mult
+  let count : Int := data.length / w
   let k := if key < 0 then key + count else key
   if k < 0 ∨ k ≥ count then ⟨data, some .index⟩ else
   match createElement d n v with
   | .error e => ⟨data, some e⟩
   | .ok b =>
     -- data.overwrite(b, start): self._bitstore[pos: pos + len(bs)] = bs (an empty bs returns at once)
-    let start := (n * k).toNat
+    let start := (w * k).toNat
     ⟨data.take start ++ b ++ data.drop (start + b.length), none⟩
 
 /-! ## 7. SPEC: the total classification -/
@@ -632,19 +653,6 @@ def windowSpec (src : Bits) (off len : Option Int) : Except Err Bits :=
   let o := off.getD 0
   let l := len.getD ((src.length : Int) - o)
   if 0 ≤ o ∧ 0 ≤ l ∧ o + l ≤ src.length then .ok ((src.drop o.toNat).take l.toNat) else .error .value
-
-/-! ### regions where the pinned tree deviates (same names in `REGIONS` of harness/props/C15.py) -/
-
-/-- `prop_endian_not_whole_bytes`: `a.uintbe = v` … on an object whose length is not a multiple of 8. -/
-def propEndianNotWhole (d : DT) (cur : Bits) : Bool :=
-  isEndian d && cur.length % 8 != 0
-
-/-- `window_negative`: a negative offset or length. -/
-def winNegative (off len : Option Int) : Bool :=
-  decide (off.getD 0 < 0) || decide (len.getD 0 < 0)
-
-/-- `window_offset_beyond`: an offset past the end of the data. -/
-def winBeyond (n : Nat) (off : Option Int) : Bool := decide (off.getD 0 > (n : Int))
 
 /-! ## 8. Driver -/
 
